@@ -171,6 +171,25 @@ Example C14_ex3d_csv :
     {| g_nodes := map (csv_projection 0 (PSingle 1) 2) (g_nodes ex3d); g_edges := g_edges ex3d |}.
 Proof. split; reflexivity. Qed.
 
+(* node id 0 is inside the domain (only -1 means "no parent"): 0 as a dividing root whose child 5 is in
+   the middle of a linear track, with a large id as a leaf; every edge out of node 0 survives *)
+Definition ex_zero : graph :=
+  {| g_nodes := [(5,          [(0, [1]); (1, [1001; 1002]); (2, [2])]);
+                 (0,          [(0, [0]); (1, [1003; 1004]); (2, [1])]);
+                 (1000003,    [(0, [1]); (1, [1005; 1006]); (2, [3])]);
+                 (2147483653, [(0, [3]); (1, [1007; 1008]); (2, [2])])];
+     g_edges := [(0, 1000003); (0, 5); (5, 2147483653)] |}.
+Example C14_ex_zero_csv :
+  lookup K_parent (export_csv ex_zero 0 (PSingle 1) 2 false) = Some [Some 0; None; Some 0; Some 5] /\
+  import_csv (explicit_csv_map false) (export_csv ex_zero 0 (PSingle 1) 2 false) =
+    {| g_nodes := map (csv_projection 0 (PSingle 1) 2) (g_nodes ex_zero);
+       g_edges := [(0, 5); (0, 1000003); (5, 2147483653)] |} /\
+  (forall u v, In (u, v) (g_edges ex_zero) -> u <> -1).
+Proof.
+  split; [vm_compute; reflexivity|]. split; [vm_compute; reflexivity|].
+  intros u v H. cbn in H. intuition congruence.
+Qed.
+
 (* GEFF: the 3D graph is split into z / y / x (10, 11, 12) with the other attributes in place;
    reading the properties [0; 10; 11; 12; 2; 3] and importing with the explicit map
    {time: 0, pos: [10; 11; 12], track_id: 2, lineage_id: 3} gives back every attribute *)
